@@ -412,6 +412,8 @@ type syRig struct {
 	threads  []*syThread
 	streams  map[int]grpc.ClientStream
 	nextC    int64
+	faultIds map[uint64]bool // wire ids of the requests whose Write was reported as failed
+	ackLoss  atomic.Bool     // the next Write of the client delivers its envelope and then reports an error
 	srv      *goat.Server
 	linkA    *Link // an EARLIER connection of the same Server (doomed: its transport fails with calls in flight)
 	ccA      *goat.ClientConn
@@ -448,7 +450,7 @@ func newSyRig(topo int, byRef, lock bool) *syRig { return newSyRigOpt(topo, byRe
 // checkCtx: the client's transport tests the context of a Write first (as the pipe / demux style transports do)
 func newSyRigOpt(topo int, byRef, lock, checkCtx bool) *syRig {
 	r := &syRig{hist: &syHist{}, lock: lock, topo: topo, ugates: map[int64]*syGate{}, sgates: map[int64]*syGate{},
-		hprogs: map[int64]syHProg{}, rmsgs: map[int64]*wrapperspb.BytesValue{}, streams: map[int]grpc.ClientStream{}, armed: map[string]*syThread{}}
+		hprogs: map[int64]syHProg{}, rmsgs: map[int64]*wrapperspb.BytesValue{}, faultIds: map[uint64]bool{}, streams: map[int]grpc.ClientStream{}, armed: map[string]*syThread{}}
 	r.ctx, r.cancel = context.WithCancel(context.Background())
 	srv := goat.NewServer("srv")
 	for _, sd := range syServiceDescs() {
@@ -463,14 +465,29 @@ func newSyRigOpt(topo int, byRef, lock, checkCtx bool) *syRig {
 	// the tap on the client's transport
 	cw, sw := l.C.OnWrite, l.S.OnWrite
 	l.C.OnWrite = func(e *Rpc) {
-		r.hist.add("WC2S " + syWenv(e))
+		if syEnvTag(e, "sy-c") >= syFaultedBase && syEnvTag(e, "sy-c") < syDoomedBase {
+			// the request of a call whose Write is reported as failed: not judged by the wire predicates
+			r.mu.Lock()
+			r.faultIds[e.GetId()] = true
+			r.mu.Unlock()
+		} else {
+			r.hist.add("WC2S " + syWenv(e))
+		}
 		r.c2sTotal.Add(1)
 		if strings.Contains(e.GetHeader().GetMethod(), "/U") || (e.GetBody() == nil && e.GetTrailer() == nil) {
 			r.c2sNoQueue.Add(1) // unary requests and stream opens do not go through a stream's queue at the server
 		}
 		cw(e)
 	}
-	l.S.OnWrite = func(e *Rpc) { r.hist.add("WS2C " + syWenv(e)); sw(e) }
+	l.S.OnWrite = func(e *Rpc) {
+		r.mu.Lock()
+		faulted := r.faultIds[e.GetId()]
+		r.mu.Unlock()
+		if !faulted {
+			r.hist.add("WS2C " + syWenv(e))
+		}
+		sw(e)
+	}
 	switch topo {
 	case 0:
 		go srv.Serve(r.ctx, l.S)
@@ -491,7 +508,7 @@ func newSyRigOpt(topo int, byRef, lock, checkCtx bool) *syRig {
 		r.stops = append(r.stops, d.Stop)
 	}
 	r.stops = append(r.stops, srv.Stop)
-	var crw goat.RpcReadWriter = l.C
+	var crw goat.RpcReadWriter = &syAckRW{inner: l.C, r: r}
 	if topo == 3 {
 		// zero slack, by reference: goat's own channel transport over UNBUFFERED channels (a Write returns when the peer
 		// has read); free-running only; the tap records what the client writes and what it reads
@@ -503,6 +520,35 @@ func newSyRigOpt(topo int, byRef, lock, checkCtx bool) *syRig {
 	r.cc = goat.NewClientConn(crw, "c1", "srv")
 	verifhook.SetYield(r.onYield)
 	return r
+}
+
+// syAckRW: the client's transport with the write fault "delivered, but the acknowledgement is lost": when armed, the next
+// Write hands the envelope to the wire and then returns an error
+type syAckRW struct {
+	inner goat.RpcReadWriter
+	r     *syRig
+}
+
+var errAckLost = errors.New("write: acknowledgement lost")
+
+func (t *syAckRW) Read(ctx context.Context) (*Rpc, error) { return t.inner.Read(ctx) }
+func (t *syAckRW) Write(ctx context.Context, e *Rpc) error {
+	err := t.inner.Write(ctx, e)
+	if err == nil && t.r.ackLoss.CompareAndSwap(true, false) {
+		return errAckLost
+	}
+	return err
+}
+
+func syEnvTag(e *Rpc, key string) int64 {
+	for _, kv := range e.GetHeader().GetHeaders() {
+		if kv.GetKey() == key {
+			if n, err := strconv.ParseInt(kv.GetValue(), 10, 64); err == nil {
+				return n
+			}
+		}
+	}
+	return -1
 }
 
 // syTapRW: the client's end of the rendezvous topology
@@ -619,6 +665,12 @@ func (r *syRig) unaryH(ctx context.Context, mi int, req []byte) ([]byte, bool, e
 	c := syTag(ctx, "sy-c")
 	if c < 0 && len(req) >= 9 && req[0] == syPlainMark {
 		c = int64(binary.BigEndian.Uint64(req[1:9])) // a plain call: linked by its payload
+	}
+	if c >= syFaultedBase && c < syDoomedBase {
+		// a call whose request Write was reported as failed: its handler may run, once
+		r.hist.add(fmt.Sprintf("HStS %d", c-syFaultedBase))
+		r.gate(r.ugates, c)
+		return syMixM(mi, req), true, nil
 	}
 	if c >= syDoomedBase {
 		// a call of the doomed connection: gated like any other, nothing recorded (its caller gets no reply)
@@ -802,6 +854,21 @@ func (r *syRig) invokeDead(n int64, how, mi int, req []byte) {
 }
 
 const syDoomedBase = 700000
+const syFaultedBase = 600000
+
+// invokeFaulted: the Write of this call's request delivers the envelope and then reports an error (lock-step only: the
+// next Write of the connection is this call's). The call may fail; its handler must run at most once (recorded as
+// HStS n, judged by the spec); nothing else of it is recorded unless the call succeeds after all.
+func (r *syRig) invokeFaulted(n int64, mi int, req []byte) {
+	ctx := metadata.AppendToOutgoingContext(r.ctx, "sy-c", strconv.FormatInt(syFaultedBase+n, 10))
+	var out wrapperspb.BytesValue
+	r.ackLoss.Store(true)
+	err := r.cc.Invoke(ctx, syUnaryPath(mi), &wrapperspb.BytesValue{Value: req}, &out)
+	r.ackLoss.Store(false)
+	if err == nil {
+		r.hist.add(fmt.Sprintf("CInvR %d %s", syFaultedBase+n, syRes(err, out.Value)))
+	}
+}
 
 // addDoomedConn: a second connection A of the SAME Server, serialising or by reference, delivering at once, not tapped.
 // Its calls (invokeDoomed) reach their handlers, which park at their gates; then A's transport fails (action 'A') and
@@ -906,6 +973,8 @@ func (r *syRig) exec(th *syThread) {
 			th.in, th.out = &wrapperspb.BytesValue{}, syUsedReply()
 		}
 		switch {
+		case op.Dead == 4:
+			r.invokeFaulted(c, op.M%syNUnary, op.Pay)
 		case op.Dead == 3:
 			r.invokeDoomed(c, op.M%syNUnary, op.Pay)
 		case op.Dead != 0:
